@@ -339,8 +339,7 @@ theorem quad_prod (close1 : ℝ → Bool) (hc : Ideal close1) (specs : List (AxS
     ring
 
 theorem discr_one_sum (close1 : ℝ → Bool) (hc : Ideal close1) (specs : List (AxSpec ℝ))
-    (hs : ∀ s ∈ specs, s.a < s.b ∧ 1 ≤ s.n)
-    (hcv : close1 (cellVolume specs) = false) :
+    (hs : ∀ s ∈ specs, s.a < s.b ∧ 1 ≤ s.n) :
     ∑ i ∈ range (axesSize (specAxes (fun k => (k : ℝ)) specs)),
       dW close1 true (specAxes (fun k => (k : ℝ)) specs) (.const (cellVolume specs)) .two i =
       (specs.map (fun s => s.b - s.a)).prod := by
@@ -351,7 +350,7 @@ theorem discr_one_sum (close1 : ℝ → Bool) (hc : Ideal close1) (specs : List 
     split_ifs with h
     · simp [twFn]
     · have : allClose1 close1 (specAxes (fun k => (k : ℝ)) specs) = true := by
-        simpa [scalesBoundary, uniformlyWeighted, Expo.isInf, TW.isWeighted, hcv] using h
+        simpa [scalesBoundary, uniformlyWeighted, Expo.isInf] using h
       simp [twFn, bfac_of_allClose close1 _ _ this]
   simp only [hdW, ← Finset.mul_sum, bfac_sum]
   exact quad_prod close1 hc specs hs
